@@ -93,6 +93,10 @@ fn sna_case(machine: ZXMachine, len: usize, fail_at: usize) -> bool {
     if h[25] & 3 == 3 {
         kani::assert(r.is_err(), "C15: interrupt mode 3 is rejected, not a panic");
     }
+    let right_size = (len == 49179 && machine == ZXMachine::Sinclair48K) || (len == 131103 && machine == ZXMachine::Sinclair128K);
+    if right_size && fail_at == usize::MAX && h[25] & 3 != 3 {
+        kani::assert(r.is_ok(), "C14: a well-formed SNA of the matching model loads");
+    }
     if r.is_ok() {
         let g = e.verif_cpu().regs.verif_get();
         kani::assert(g.i == h[0], "C14.sna I");
